@@ -108,6 +108,7 @@ func (batch *Batch) close() (err error) {
 	}
 
 	if lock != nil {
+		verifTrace("batch.close", conn, batch.offset, err)
 		lock.Unlock()
 	}
 
